@@ -40,6 +40,11 @@ EXT_BLOCK_TEXT = (" In addition the block cores (rand_hc: Hc128Core::step_p, ste
                   "regenerated from /repo's current source as Lean definitions on every run (tools/rs2lean.py) and proved equal to the "
                   "model for all inputs (ExtTie.* obligations, DESIGN.md §3b Extension); a broken one goes to the property's falsifier "
                   "on the real code.")
+EXT_JITTER = {"C05", "C12", "C13", "C14", "C16"}
+EXT_JITTER_TEXT = (" For rand_jitter all of JitterRng's logic (random_loop_cnt … test_timer, Clone, next_u32/next_u64/fill_bytes) is regenerated "
+                   "from /repo's current source as definitions in the timer monad (tools/rs2lean_tm.py) and proved equal to the model for all "
+                   "inputs and all timer scripts (ExtTie.JitterRng.*; C14: the census of partial operations equals what Checked.Jitter accounts for); "
+                   "abstractions (black_box, dead-code elimination, scratch-memory check, skipped log macros) in DESIGN.md §3b Extension.")
 def main():
     checks = []
     for pid, (text, tech) in sorted(T.items()):
@@ -59,6 +64,11 @@ def main():
             text += EXT_TEXT
             tech += " + translator-regenerated correspondence theorems (rs2lean)"
             note = NOTE + EXT_NOTE
+        if pid in EXT_JITTER:
+            text += EXT_JITTER_TEXT
+            if pid not in EXT:
+                tech += " + translator-regenerated correspondence theorems (rs2lean_tm)"
+                note = NOTE + EXT_NOTE
         checks.append(dict(property_id=pid, quick_cmd=f"python3 tools/check.py {pid} --tier quick",
             thorough_cmd=f"python3 tools/check.py {pid} --tier thorough", evidence_file=f"evidence/{pid}.json",
             replay_cmd_template=f"python3 tools/check.py {pid} --replay {{path}}", engine="lean-proof+tie",
